@@ -752,3 +752,28 @@ impl<'a> Peripheral<'a> {
         }
     }
 }
+
+#[cfg(feature = "verif-hooks")]
+impl Peripheral<'_> {
+    /// Verification hook: snapshot of the private peripheral state.
+    pub fn verif_probe(&self) -> crate::verif::PeripheralProbe {
+        crate::verif::PeripheralProbe {
+            state: match self.state {
+                PeripheralState::Offline => "Offline",
+                PeripheralState::WaitForParam => "WaitForParam",
+                PeripheralState::WaitForConfig => "WaitForConfig",
+                PeripheralState::ValidateConfig => "ValidateConfig",
+                PeripheralState::PreDataExchange => "PreDataExchange",
+                PeripheralState::DataExchange => "DataExchange",
+            },
+            retry_count: self.retry_count,
+            fcb: match self.fcb {
+                crate::fdl::FrameCountBit::First => 0,
+                crate::fdl::FrameCountBit::High => 1,
+                crate::fdl::FrameCountBit::Low => 2,
+                crate::fdl::FrameCountBit::Inactive => 3,
+            },
+            diag_needed: self.diag_needed,
+        }
+    }
+}
